@@ -62,7 +62,7 @@ PickKind ==
      \/ /\ "ifelse" \in Kinds
         /\ \E j \in MeasAncs : cnd' = [cw |-> <<j>>, cv |-> << <<1>> >>, els |-> FALSE, pend |-> TRUE]
         /\ st' = "name" /\ UNCHANGED <<prog, nm, cur>>
-PickName == /\ st = "name" /\ \E q \in QgNames : cur' = [QgBlank EXCEPT !.q = q]
+PickName == /\ st = "name" /\ \E q \in {x \in QgNames : QArity(x) <= NQ} : cur' = [QgBlank EXCEPT !.q = q]
             /\ st' = "mods" /\ UNCHANGED <<prog, nm, cnd>>
 PickMods == /\ st = "mods"
             /\ \E ms \in {x \in ModStacks : QArity(cur.q) + QgNCtrl(x) <= NQ} : cur' = [cur EXCEPT !.mods = ms]
